@@ -361,6 +361,33 @@ func FunctionModifiers() []string {
 	return out
 }
 
+// ParameterForms: every argument-label form of a parameter
+// (no label, `_` label, label different from the name, label equal to the name).
+var ParameterForms = []string{"a: T", "_ a: T", "b a: T", "a a: T", "x y: @T", "a: T, _ b: U", "l a: T, a b: U, c c: V"}
+
+// ParameterHosts: every declaration / expression form that bears a parameter list (%s = the list).
+var ParameterHosts = []string{
+	"fun f(%s) {}",
+	"fun f(%s): T { return a }",
+	"access(all) view fun f(%s) {}",
+	"fun f<X>(%s) {}",
+	"struct S { init(%s) {} }",
+	"resource R { init(%s) {} }",
+	"struct S { fun m(%s) {} }",
+	"struct interface I { fun m(%s) }",
+	"struct interface I { init(%s) }",
+	"contract C { fun m(%s) {} }",
+	"attachment At for S { init(%s) {} }",
+	"let x = fun (%s) {}",
+	"let x = fun (%s): T { return a }",
+	"fun g() { let h = fun (%s) {} }",
+	"fun g() { fun h(%s) {} }",
+	"event Ev(%s)",
+	"struct S { event Ev(%s) }",
+	"transaction(%s) {}",
+	"transaction { prepare(%s) {} }",
+}
+
 // CompositeKinds: keyword prefix of composite-like declarations.
 var CompositeKinds = []string{
 	"struct", "resource", "contract", "struct interface", "resource interface", "contract interface",
@@ -607,6 +634,16 @@ func Programs(cfg Config, yield func(Program)) {
 				}
 				emit(fmt.Sprintf("%s S { %s%s }", kind, pre, m), "decl-member-access", kind)
 			}
+		}
+	}
+
+	// parameter-bearing forms x argument-label forms
+	for hi, h := range ParameterHosts {
+		for pi, pf := range ParameterForms {
+			if cfg.Small && (hi+pi)%3 != 0 {
+				continue
+			}
+			emit(fmt.Sprintf(h, pf), "decl-params", "params")
 		}
 	}
 
